@@ -379,7 +379,12 @@ class Interp:
         f = frame
         while f is not None:
             if name in f.vars:
-                return f.vars[name]
+                v = f.vars[name]
+                if isinstance(v, ScratchPoison):
+                    # a name the sidecar invariant declared loop-local is read before the body assigned it: it carries a value from the
+                    # previous iteration (or from before the loop), which the cut-loop rule does not know
+                    raise Unsupported(f"`{name}` is read in the body of loop `{v.loop}` before it is assigned there: it is live across iterations, not scratch")
+                return v
             f = f.parent
         return self.module_global(frame.module, name)
 
@@ -1611,6 +1616,9 @@ class Interp:
             i = z3.Int(ex.fresh_name(f"i@{spec.name}"))
             ex.assume(z3.And(i >= 0, i < n))
             ex.assume(spec.inv(self, fr, i, seq))
+            for nm in spec.scratch:
+                if nm in fr.vars and nm not in spec.havoc:
+                    fr.vars[nm] = ScratchPoison(label)
             self.assign_target(s.target, seq.at(self, i), fr)
             try:
                 self.block(s.body, fr)
@@ -1664,6 +1672,11 @@ class Interp:
         if self.truth(self.ev(s.test, fr), s.test):
             raise PathEnd()  # exit mode: the guard is false
         self.block(s.orelse, fr)
+
+
+class ScratchPoison:
+    def __init__(self, loop):
+        self.loop = loop
 
 
 _MUTATORS = {"append", "extend", "insert", "pop", "remove", "clear", "add", "update", "discard", "setdefault", "popitem", "sort", "reverse",
